@@ -86,7 +86,7 @@ def redeclare(rng, r):
         scope = list(n["input_params"]) + [l[0] for l in n["local_variables"]]
         others = [q["size"][1] for q in n["ports"] if q is not p and q["direction"] != "output" and q["size"] is not None and q["size"][0] == "s"]
         if kind == "const":
-            p["size"] = E.num(rng.randint(1, 3))
+            p["size"] = E.num(rng.randint(0, 3))       # a register declared empty is a declaration like any other
         elif kind == "repeat" and others:
             p["size"] = E.sym(rng.choice(others))
         elif scope:
@@ -109,7 +109,8 @@ def gen_cases(rng, n, max_depth):
             continue
         if redeclare(rng, r) == 0:
             continue
-        out.append({"routine": r, "seed": rng.randint(0, 10**9), "n_assign": 4})
+        out.append({"routine": r, "seed": rng.randint(0, 10**9), "n_assign": 4, "native": rng.random() < 0.5,
+                    "lo": rng.choice([0, 1, 1])})
     return out
 
 
